@@ -16,6 +16,7 @@ resolved by the interpreter), bound methods of wrapped objects (("bound", id, na
 import ast
 
 from .. import effects
+from ..objects import ObjectDomain
 from ..absint import FALSE, NONE, TOP, TRUE, Undecided, exc, val
 from ..astutil import FUNC_TYPES, attr_chain, dotted
 
@@ -36,8 +37,7 @@ def is_failure(v):
     return isinstance(v, tuple) and v[:1] == ("failure",)
 
 
-class DeferredDomain(effects.EffectDomain):
-    list_outparams = True
+class DeferredDomain(ObjectDomain):
 
     def __init__(self, classes, dfr_results=None, **kw):
         super().__init__(classes, **kw)
@@ -74,21 +74,6 @@ class DeferredDomain(effects.EffectDomain):
     def load_attr(self, chain, st, fr):
         if chain and chain[0] == "<yield>" and any((dotted(x) or "").split(".")[-1] == "inlineCallbacks" for x in getattr(fr.func, "decorator_list", [])):
             return self._yield(chain[2], st, fr)
-        got = super().load_attr(chain, st, fr)
-        if got is not None:
-            return got
-        if len(chain) == 2 and all(isinstance(c, str) for c in chain):
-            if fr.selfname and chain[0] == fr.selfname and fr.receiver is not None and not st.has("self." + chain[1]):
-                d = "self." + chain[1]
-                owner, f = self.classes.resolve_method(fr.receiver, chain[1])
-                is_prop = isinstance(f, FUNC_TYPES) and any((dotted(x) or "").split(".")[-1] in ("property", "cached_property") for x in f.decorator_list)
-                if self.track(d) or d in self.results or d in self.dfr_results or (isinstance(f, FUNC_TYPES) and owner is not None and not owner.external and not is_prop):
-                    return ("method", chain[1])
-            if chain[1] == "append" and chain[0] != fr.selfname:
-                key = fr.local(chain[0])
-                cur = st.get(key, None)
-                if isinstance(cur, tuple) and cur[:1] == ("tuple",):
-                    return ("listappend", key)
         if len(chain) == 2 and all(isinstance(c, str) for c in chain) and chain[1] in ("called", "paused", "result"):
             v = st.get(fr.local(chain[0]), None)
             if is_dfr(v):
@@ -99,28 +84,7 @@ class DeferredDomain(effects.EffectDomain):
                     return ("const", 1 if res[0] == "paused" else 0)
                 if res[0] != "pending":
                     return res[1]   # (a paused Deferred's .result is the nested Deferred it waits for)
-        if chain and chain[0] == "<yield>":
-            return self._yield(chain[2], st, fr)
-        if len(chain) == 1 and chain[0] in ("bool", "repr", "str", "len") and not st.has(fr.local(chain[0])):
-            return ("builtin", chain[0])   # a builtin handed around as a value
-        if len(chain) == 1 and isinstance(chain[0], str):
-            f = self._lookup_function(chain[0], fr) or self.classes.lookup_function(getattr(fr.func, "_module", None), chain[0])
-            if f is not None:
-                return ("func", f)
-        return None
-
-    @staticmethod
-    def _lookup_function(name, fr):
-        """A def of that name in a lexically enclosing function or at module level (a first-class function value)."""
-        n = fr.func
-        while n is not None:
-            body = getattr(n, "body", None)
-            if isinstance(body, list):
-                for s_ in body:
-                    if isinstance(s_, FUNC_TYPES) and s_.name == name:
-                        return s_
-            n = getattr(n, "_parent", None)
-        return None
+        return super().load_attr(chain, st, fr)
 
     def _yield(self, value, st, fr):
         """`yield d` inside an inlineCallbacks generator: the Deferred's result, or its failure raised."""
@@ -136,13 +100,6 @@ class DeferredDomain(effects.EffectDomain):
 
     def apply(self, interp, fn, pos, kw, st, fr):
         """Call the abstract callable ``fn`` with abstract arguments -> list of Result."""
-        if isinstance(fn, tuple) and fn[:1] == ("builtin",) and len(pos) == 1:
-            if fn[1] == "bool":
-                return [val({"T": TRUE, "F": FALSE}.get(self.truth(pos[0]), ("bool",)), st)]
-            if fn[1] == "len":
-                els = interp._exact_elements(pos[0])
-                return [val(("const", len(els)) if els is not None else TOP, st)]
-            return [val(("ret", fn[1], pos[0]), st)]
         if isinstance(fn, tuple) and fn[:1] == ("userfn",):
             # a user function of a given kind: returns / raises / returns a Deferred that has fired, failed or is pending
             log = st.get("ev.calls", ())
@@ -155,117 +112,15 @@ class DeferredDomain(effects.EffectDomain):
             oc = {"fired-ok": ("ok", USER_VALUE), "fired-fail": ("fail", ("failure", USER_EXC)), "pending": ("pending",)}[kind]
             dv, s2 = self.new_dfr(s, oc)
             return [val(dv, s2.set("ev.user_dfr", dv))]
-        if isinstance(fn, tuple) and fn[:1] == ("partial",):
-            # functools.partial(f, *a, **k): arguments given as plain names of lists / dicts are aliases, not copies
-            _, inner, p_pos, p_kw = fn
-            refs = {}
-            pos2 = []
-            for v in p_pos:
-                pos2.append(st.get(v[1], TOP) if isinstance(v, tuple) and v[:1] == ("ref",) else v)
-            kw2 = []
-            for k, v in p_kw:
-                if isinstance(v, tuple) and v[:1] == ("ref",):
-                    refs[k] = v[1]
-                    kw2.append((k, st.get(v[1], TOP)))
-                else:
-                    kw2.append((k, v))
-            pos_refs = {i: v[1] for i, v in enumerate(p_pos) if isinstance(v, tuple) and v[:1] == ("ref",)}
-            out = []
-            for r in self.apply(interp, inner, pos2 + list(pos), kw2 + list(kw), st, fr):
-                s2 = r.state
-                for k, key in refs.items():
-                    if s2.has("outparam." + k):
-                        s2 = s2.set(key, s2.get("outparam." + k))
-                if pos_refs and isinstance(inner, tuple) and inner[:1] == ("func",):
-                    names = [p.arg for p in inner[1].args.posonlyargs + inner[1].args.args]
-                    for i, key in pos_refs.items():
-                        if i < len(names) and s2.has("outparam." + names[i]):
-                            s2 = s2.set(key, s2.get("outparam." + names[i]))
-                if any(k_.startswith("outparam.") for k_, _ in s2.items):
-                    s2 = s2.drop_prefix("outparam.")
-                out.append(type(r)(r.kind, r.value, s2))
-            return out
-        if isinstance(fn, tuple) and fn[:1] == ("func",):
-            node = fn[1]
-            a = node.args
-            params = [p.arg for p in a.posonlyargs + a.args]
-            argvals = {p: v for p, v in zip(params, pos)}
-            if a.vararg is not None:
-                argvals[a.vararg.arg] = ("tuple",) + tuple(pos[len(params):])
-            for k, v in kw:
-                argvals[k] = v
-            return interp.inline(node, argvals, st, fr, receiver=fr.receiver, is_method=False, closure_env=fn[2] if len(fn) == 3 else ())
-        if isinstance(fn, tuple) and fn[:1] == ("bound",):
-            return self.call_bound_values(fn, list(pos), list(kw), st)
-        if isinstance(fn, tuple) and fn[:1] == ("wobj",):
-            return self.call_bound_values(("bound", fn[1], "__call__"), list(pos), list(kw), st)
-        if isinstance(fn, tuple) and fn[:1] == ("listappend",):
-            cur = st.get(fn[1], None)
-            if isinstance(cur, tuple) and cur[:1] == ("tuple",) and len(pos) == 1:
-                return [val(NONE, st.set(fn[1], cur + (pos[0],)))]
-            return [val(NONE, st.set(fn[1], TOP))]
-        if isinstance(fn, tuple) and fn[:1] == ("method",):
-            d = "self." + fn[1]
-            if d in self.dfr_results:
-                return self._fired(d, pos, kw, st)
-            if self.track(d) or d in self.results or d in self.raises:
-                def logged(tag):
-                    if not self.track(d):
-                        return st
-                    log = st.get("ev.calls", ())
-                    return st.set("ev.calls", log + ((d, tuple(pos), tuple(kw), tag),)) if len(log) < self.log_cap else st.set("ev.calls.overflow", 1)
-                return [val(v, logged("ok")) for v in self.results.get(d, [TOP])] + [exc(e, logged(e[1] if isinstance(e, tuple) and len(e) > 1 else "raised")) for e in self.raises.get(d, [])]
-            owner, f = self.classes.resolve_method(fr.receiver, fn[1]) if fr.receiver is not None else (None, None)
-            if isinstance(f, FUNC_TYPES) and owner is not None and not owner.external:
-                a = f.args
-                static = any((dotted(x) or "") == "staticmethod" for x in f.decorator_list)
-                params = [p.arg for p in a.posonlyargs + a.args][0 if static else 1:]
-                argvals = {p: v for p, v in zip(params, pos)}
-                if a.vararg is not None:
-                    argvals[a.vararg.arg] = ("tuple",) + tuple(pos[len(params):])
-                extra = []
-                for k, v in kw:
-                    if k in params or k in [p.arg for p in a.kwonlyargs]:
-                        argvals[k] = v
-                    else:
-                        extra.append((k, v))
-                if a.kwarg is not None:
-                    argvals[a.kwarg.arg] = ("kwdict", tuple(extra))
-                return self._maybe_generator(f, interp.inline(f, argvals, st, fr, receiver=fr.receiver, is_method=not static))
-        return [val(TOP, st)]
+        if isinstance(fn, tuple) and fn[:1] == ("method",) and "self." + fn[1] in self.dfr_results:
+            return self._fired("self." + fn[1], pos, kw, st)
+        return super().apply(interp, fn, pos, kw, st, fr)
 
-    def call_bound_values(self, bound, pos, kw, st):
-        obj = bound[1]
-        name = f"<{obj[1]}>.{bound[2]}" if isinstance(obj, tuple) else f"{obj}.{bound[2]}"
-        if (bound[1], bound[2]) in self.lacks:
-            return [exc(("exc", "AttributeError"), st)]
-        if isinstance(obj, tuple):
-            pos = [obj] + pos
-        log = st.get("ev.calls", ())
+    def _is_method_value(self, d):
+        return d in self.dfr_results
 
-        def logged(tag):
-            if len(log) >= self.log_cap:
-                return st.set("ev.calls.overflow", 1)
-            return st.set("ev.calls", log + ((name, tuple(pos), tuple(kw), tag),))
-
-        if self.oracle is None:
-            outcomes = None
-        elif getattr(self, "oracle_state", False):
-            outcomes = self.oracle(name, tuple(pos), tuple(kw), st)
-        else:
-            outcomes = self.oracle(name, tuple(pos), tuple(kw))
-        if outcomes is None:
-            outcomes = [("val", v) for v in self.results.get(name, self.results.get("*." + bound[2], [("ret", name if isinstance(obj, tuple) else obj, bound[2])]))]
-            outcomes += [("exc", e) for e in self.raises.get(name, self.raises.get("*." + bound[2], []))]
-        out = []
-        for oc in outcomes:
-            kind, v = oc[0], oc[1]
-            tag = oc[2] if len(oc) > 2 else None
-            if kind == "val":
-                out.append(val(v, logged(tag or "ok")))
-            else:
-                out.append(exc(v, logged(tag or (v[1] if isinstance(v, tuple) and len(v) > 1 else "raised"))))
-        return out
+    def _wrap_generator(self, f, results, fr):
+        return self._maybe_generator(f, results)
 
     def _fired(self, d, pos, kw, st):
         s2 = st
@@ -417,24 +272,6 @@ class DeferredDomain(effects.EffectDomain):
                     handled = False
             if handled:
                 return out
-        if d in ("partial", "functools.partial") and call.args:
-            out = []
-            exprs = list(call.args) + [k.value for k in call.keywords]
-            if any(isinstance(a, ast.Starred) for a in call.args) or any(k.arg is None for k in call.keywords):
-                return super().call(interp, call, st, fr)
-            for r in interp.eval_list(exprs, st, fr):
-                if r.kind == "exc":
-                    out.append(r)
-                    continue
-                def ref_or_value(expr, v):
-                    key = interp._key_of(expr, fr) if isinstance(expr, (ast.Name, ast.Attribute)) else None
-                    if key is not None and r.state.has(key) and isinstance(v, tuple) and v[:1] in (("tuple",), ("kwdict",)):
-                        return ("ref", key)
-                    return v
-                pos = tuple(ref_or_value(a, v) for a, v in zip(call.args[1:], r.value[1: len(call.args)]))
-                kw = tuple((k.arg, ref_or_value(k.value, v)) for k, v in zip(call.keywords, r.value[len(call.args):]))
-                out.append(val(("partial", r.value[0], pos, kw), r.state))
-            return out
         if d.split(".")[-1] == "Deferred" and d in ("defer.Deferred", "Deferred") and not call.args:
             dv, s2 = self.new_dfr(st)
             return [val(dv, s2)]
@@ -486,11 +323,10 @@ class DeferredDomain(effects.EffectDomain):
             for r in interp.eval_list(exprs, st, fr):
                 out.extend([r] if r.kind == "exc" else self._fired(d, r.value[: len(call.args)], tuple((k.arg or "**", v) for k, v in zip(call.keywords, r.value[len(call.args):])), r.state))
             return out
-        # a local holding a first-class callable of this model
+        # a local holding a user function of this model
         if isinstance(f_, ast.Name) and st.has(fr.local(f_.id)):
             v = st.get(fr.local(f_.id))
-            if isinstance(v, tuple) and v[:1] in (("method",), ("listappend",), ("wobj",), ("partial",), ("userfn",), ("builtin",)) and not any(isinstance(a, ast.Starred) for a in call.args) \
-                    and all(k.arg is not None for k in call.keywords):
+            if isinstance(v, tuple) and v[:1] == ("userfn",) and not any(isinstance(a, ast.Starred) for a in call.args) and all(k.arg is not None for k in call.keywords):
                 out = []
                 for r in interp.eval_list(list(call.args) + [k.value for k in call.keywords], st, fr):
                     if r.kind == "exc":
